@@ -10,6 +10,7 @@ set_option maxRecDepth 100000
 
 theorem code11_2_5_klCheck : klCheck code11_2_5 = true := by decide +kernel
 theorem code11_2_5_listed : listedCheck code11_2_5 = true := by decide +kernel
+theorem code11_2_5_listedIndep : listedIndepCheck code11_2_5 = true := by decide +kernel
 theorem code11_2_5_stabCirc : stabCircImplCheck code11_2_5 = true := by decide +kernel
 
 /-- **((11,2,5))**: orthonormal code words, Knill–Laflamme for every error of weight < 5, the ten listed
